@@ -523,6 +523,9 @@ class Workflow(Composite):
 
     @parent.setter
     def parent(self, new_parent: None):
+        self._check_parent(new_parent)
+
+    def _check_parent(self, new_parent) -> None:
         if new_parent is not None:
             raise ParentMostError(
                 f"{self.label} is a {self.__class__} and may only take None as a "
